@@ -80,3 +80,23 @@ def check_c16(tier, replay=None):
     rep.assumptions = ['TLC 1.8; node v20 for JavaScript parsing/evaluation; regex scanners for JSDoc and .d.ts (no tsc in this sandbox); '
                        'naming conversions reimplemented in harness/jscheck.py']
     return rep.finish()
+
+
+def check_c17(tier, replay=None):
+    rep = Report('C17', tier)
+    res = run_shards('StoneLoadMC',
+                     lambda s: dict(spec='Spec', constants={'Shard': s, 'NShards': 16, 'EmitVectors': True},
+                                    invariants=INVS, constraints=['Emit']),
+                     list(range(16)), 'swiftcheck.SwiftJudge', {}, tlc_kwargs={'timeout': 6000})
+    agg = merge(res)
+    rep.add_tlc('StoneLoadMC', agg, {'models': 109})
+    rep.add_judged(agg)
+    rep.exhaustive = True
+    rep.coverage_extra['rule'] = ('for each of 108 API models the six rows swift_types, swift_types --objc, swift_client, swift_client --objc, '
+                                  'obj_c_types, obj_c_client (with the route-style and client-argument options they require) must complete; every '
+                                  '.swift/.h/.m file is scanned by a small lexer (balanced brackets outside strings and comments, terminated '
+                                  'strings and comments); declarations of namespaces, structs, unions, fields, tags, serializers and route '
+                                  'functions are counted under the naming scheme (exactly once) and user-type references resolved')
+    rep.assumptions = ['TLC 1.8; no swiftc / Objective-C compiler in this sandbox: lexical form and declaration coverage only; '
+                       'naming conversions reimplemented in harness/jscheck.py']
+    return rep.finish()
